@@ -3,6 +3,8 @@ import ColaVerif.Lemmas.LanczosOut
 import ColaVerif.Lemmas.LanczosGrade
 import ColaVerif.Lemmas.LanczosRelation
 import ColaVerif.Lemmas.LanczosExample
+import ColaVerif.Lemmas.LanczosEigsUnit
+import ColaVerif.Lemmas.LanczosExample3
 
 /-!
 # C14 — Lanczos returns an orthonormal Krylov basis and the projected tridiagonal matrix
@@ -41,11 +43,20 @@ Round 2 (end of the file) — conditions on the INPUTS instead of on outputs:
 * `C14_eigh_contract_witness`: the contract `eigh_contract` holds for an exact eigensolver on the
   concrete run `A = [[2,1],[1,2]]`, `v = e₀`; `C14_grade_witness`.
 
+Round 3 (end of the file) — `eigh_contract` lets zero columns through (then "Ritz pair" is vacuous):
+* `C14_lanczos_eigs_nonzero` (contract `eigh_contract_nonzero`: no zero column ⇒ non-zero Ritz vectors,
+  eigenpairs of `A` at `r = 0`) and `C14_lanczos_eigs_unit` (contract `eigh_contract_unit`: orthonormal columns ⇒
+  orthonormal Ritz vectors, real Ritz values = Rayleigh quotients), both also position by position on the
+  returned arrays; the old `C14_lanczos_eigs` is kept and follows from the new one (`example`).
+* `C14_eigh_contract_unit_witness`: the whole bundle on the 3 × 3 run `A = [[2,1,0],[1,2,1],[0,1,2]]`, `v = e₀`
+  with the exact solver `eigh3`.  That LAPACK's `eigh` meets these contracts is ASSUMED (witnessed exactly on
+  the 2 × 2 and the 3 × 3 run; measured for the driver's Jacobi `eigh` on every run of the check).
+
 Floating-point behaviour (loss of orthogonality, breakdown detection below the rounding level) is
 outside these theorems; it is covered by the correspondence check `harness/props/c14.py`.
 -/
 
-open scoped InnerProductSpace
+open scoped InnerProductSpace ComplexConjugate
 open Finset Lanczos
 
 variable {𝕜 E : Type} [RCLike 𝕜] [NormedAddCommGroup E] [InnerProductSpace 𝕜 E]
@@ -115,7 +126,10 @@ example : ∃ (A : ℂ →ₗ[ℝ] ℂ) (v : ℂ) (tol : ℝ), A.IsSymmetric ∧
 it returns `k` values and, as columns, vectors `y_j` with `T y_j = θ_j y_j`.  Then `lanczos_eigs`
 returns the pairs `(θ_j, Q y_j)` rearranged by a permutation `idx` of `0 … k-1` along which the
 values ascend, and every pair satisfies the Ritz relation `A x - θ x = (y_j)_{k-1} • r` (an exact
-eigenpair of `A` when the Krylov space is exhausted, `r = 0`). -/
+eigenpair of `A` when the Krylov space is exhausted, `r = 0`).  NOTE: `eigh_contract` says nothing about
+`y_j ≠ 0`, so a zero column passes and its "pair" is vacuous; `C14_lanczos_eigs_nonzero` /
+`C14_lanczos_eigs_unit` (end of the file) exclude that and conclude non-zero / orthonormal Ritz vectors.
+`eigh` (LAPACK) meeting any of these contracts is an assumed contract. -/
 theorem C14_lanczos_eigs (eigh : Array (Array 𝕜) → Array 𝕜 × Array (Array 𝕜))
     (A : E →ₗ[𝕜] E) (A_hermitian : A.IsSymmetric) (n max_iters : ℕ) (v : E) (tol : ℝ)
     (start_nonzero : v ≠ 0) (tol_nonneg : 0 ≤ tol) (cap_pos : 1 ≤ min max_iters n)
@@ -425,6 +439,153 @@ theorem C14_eigh_contract_witness :
   obtain ⟨h1, _, _, _, h2, h3, h4, h5, _⟩ := ex2_run
   exact ⟨h1, h2, h3, h4, h5⟩
 
+/-! ## round 3: the `eigh` contract without the vacuous case -/
+
+/-- **C14, `lanczos_eigs` — no zero eigen-column.**  `eigh_contract` of `C14_lanczos_eigs` lets `eigh` return zero
+columns, for which "Ritz pair" says nothing.  Under the contract `eigh_contract_nonzero` (`k` values, columns
+with `T y_j = θ_j y_j`, and NO column is zero on the first `k` entries) everything `C14_lanczos_eigs` states
+holds, and moreover: every Ritz vector `x_j = Q y_j` is NON-ZERO; the returned arrays have `k` entries; entry `i`
+of the returned vectors is non-zero and satisfies `A x - θ x ∈ span{r}` with entry `i` of the returned values;
+the returned values ascend position by position; and after an exit with an exhausted Krylov space (`r = 0`)
+every returned pair is a genuine eigenpair of `A` (`HasEigenvector`).  That `numpy.linalg.eigh` (LAPACK) meets
+the contract is ASSUMED, not proved; it is witnessed exactly on a 2 × 2 and a 3 × 3 run
+(`C14_eigh_contract_witness`, `C14_eigh_contract_unit_witness`) and measured on every run of the driver. -/
+theorem C14_lanczos_eigs_nonzero (eigh : Array (Array 𝕜) → Array 𝕜 × Array (Array 𝕜))
+    (A : E →ₗ[𝕜] E) (A_hermitian : A.IsSymmetric) (n max_iters : ℕ) (v : E) (tol : ℝ)
+    (start_nonzero : v ≠ 0) (tol_nonneg : 0 ≤ tol) (cap_pos : 1 ≤ min max_iters n)
+    (eigh_contract_nonzero :
+      let o := lanczosExact A n #[v] max_iters tol
+      let e := eigh (tridiagDense (K := 𝕜) (o.alpha.getD 0 #[]) (o.beta.getD 0 #[]))
+      e.1.size = o.iters ∧
+      (∀ j a, j < o.iters → a < o.iters →
+        ∑ c ∈ range o.iters, o.T 0 a c * (e.2.getD j #[]).getD c 0 =
+          e.1.getD j 0 * (e.2.getD j #[]).getD a 0) ∧
+      ∀ j, j < o.iters → ∃ c, c < o.iters ∧ (e.2.getD j #[]).getD c 0 ≠ 0) :
+    let o := lanczosExact A n #[v] max_iters tol
+    let res := lanczosEigs (K := 𝕜) eigh (⇑A) n 0 v max_iters (tol : 𝕜)
+    let k := o.iters
+    let r := o.resid A 0
+    ∃ (idx : List ℕ) (θ : ℕ → 𝕜) (y : ℕ → ℕ → 𝕜) (x : ℕ → E),
+      -- the conclusion of `C14_lanczos_eigs`
+      idx.Perm (List.range k) ∧
+      res.1.toList = idx.map θ ∧ res.2.toList = idx.map x ∧
+      (idx.map θ).Pairwise (fun a b => RCLike.re a ≤ RCLike.re b) ∧
+      (∀ j, j < k → x j = ∑ c ∈ range k, y j c • o.q 0 c ∧ A (x j) - θ j • x j = y j (k - 1) • r) ∧
+      -- new: no Ritz vector vanishes
+      (∀ j, j < k → x j ≠ 0) ∧
+      -- new: the returned arrays, position by position
+      res.1.size = k ∧ res.2.size = k ∧
+      (∀ i, i < k → res.2.getD i 0 ≠ 0 ∧
+        ∃ c : 𝕜, A (res.2.getD i 0) - res.1.getD i 0 • res.2.getD i 0 = c • r) ∧
+      (∀ i j, i < j → j < k → RCLike.re (res.1.getD i 0) ≤ RCLike.re (res.1.getD j 0)) ∧
+      (r = 0 → ∀ i, i < k → Module.End.HasEigenvector A (res.1.getD i 0) (res.2.getD i 0)) :=
+  eigs_out_nonzero eigh A n max_iters v tol A_hermitian start_nonzero tol_nonneg cap_pos
+    { size := eigh_contract_nonzero.1, pair := eigh_contract_nonzero.2.1,
+      nonzero := eigh_contract_nonzero.2.2 }
+
+/-- **C14, `lanczos_eigs` — orthonormal eigen-columns (what `eigh` documents).**  Contract `eigh_contract_unit`:
+`k` values, columns with `T y_j = θ_j y_j`, and the `k` columns are ORTHONORMAL (`Σ_c conj(y_i c) y_j c = δ_ij`,
+hence non-zero).  Then everything `C14_lanczos_eigs` and `C14_lanczos_eigs_nonzero` state holds, and moreover
+`⟪Q y_i, Q y_j⟫ = ⟪y_i, y_j⟫` (`Q` has orthonormal columns), the Ritz vectors are ORTHONORMAL, every Ritz value
+is the Rayleigh quotient `⟪x, A x⟫` of its vector and is REAL; the same position by position for the returned
+arrays: `k` orthonormal (non-zero) vectors, real ascending values, `A x - θ x ∈ span{r}`, eigenpairs of `A`
+when `r = 0`.  That `numpy.linalg.eigh` (LAPACK) meets the contract is ASSUMED, not proved; it is witnessed
+exactly on a 2 × 2 run (`C14_eigh_contract_witness`, pair part) and on a 3 × 3 run
+(`C14_eigh_contract_unit_witness`, whole bundle), and its residual / orthonormality defect is measured on
+every run of the correspondence check for the driver's Jacobi `eigh`. -/
+theorem C14_lanczos_eigs_unit (eigh : Array (Array 𝕜) → Array 𝕜 × Array (Array 𝕜))
+    (A : E →ₗ[𝕜] E) (A_hermitian : A.IsSymmetric) (n max_iters : ℕ) (v : E) (tol : ℝ)
+    (start_nonzero : v ≠ 0) (tol_nonneg : 0 ≤ tol) (cap_pos : 1 ≤ min max_iters n)
+    (eigh_contract_unit :
+      let o := lanczosExact A n #[v] max_iters tol
+      let e := eigh (tridiagDense (K := 𝕜) (o.alpha.getD 0 #[]) (o.beta.getD 0 #[]))
+      e.1.size = o.iters ∧
+      (∀ j a, j < o.iters → a < o.iters →
+        ∑ c ∈ range o.iters, o.T 0 a c * (e.2.getD j #[]).getD c 0 =
+          e.1.getD j 0 * (e.2.getD j #[]).getD a 0) ∧
+      ∀ i j, i < o.iters → j < o.iters →
+        ∑ c ∈ range o.iters, conj ((e.2.getD i #[]).getD c 0) * (e.2.getD j #[]).getD c 0 =
+          if i = j then 1 else 0) :
+    let o := lanczosExact A n #[v] max_iters tol
+    let res := lanczosEigs (K := 𝕜) eigh (⇑A) n 0 v max_iters (tol : 𝕜)
+    let k := o.iters
+    let r := o.resid A 0
+    ∃ (idx : List ℕ) (θ : ℕ → 𝕜) (y : ℕ → ℕ → 𝕜) (x : ℕ → E),
+      -- the conclusion of `C14_lanczos_eigs`
+      idx.Perm (List.range k) ∧
+      res.1.toList = idx.map θ ∧ res.2.toList = idx.map x ∧
+      (idx.map θ).Pairwise (fun a b => RCLike.re a ≤ RCLike.re b) ∧
+      (∀ j, j < k → x j = ∑ c ∈ range k, y j c • o.q 0 c ∧ A (x j) - θ j • x j = y j (k - 1) • r) ∧
+      -- new: `Q` is an isometry on coefficient vectors; the Ritz vectors are orthonormal
+      (∀ i j, i < k → j < k → ⟪x i, x j⟫_𝕜 = ∑ c ∈ range k, conj (y i c) * y j c) ∧
+      Orthonormal 𝕜 (fun j : Fin k => x j) ∧
+      (∀ j, j < k → x j ≠ 0 ∧ θ j = ⟪x j, A (x j)⟫_𝕜 ∧ ∃ t : ℝ, θ j = (t : 𝕜)) ∧
+      -- new: the returned arrays, position by position
+      res.1.size = k ∧ res.2.size = k ∧
+      Orthonormal 𝕜 (fun i : Fin k => res.2.getD i 0) ∧
+      (∀ i, i < k → res.2.getD i 0 ≠ 0 ∧ (∃ t : ℝ, res.1.getD i 0 = (t : 𝕜)) ∧
+        res.1.getD i 0 = ⟪res.2.getD i 0, A (res.2.getD i 0)⟫_𝕜 ∧
+        ∃ c : 𝕜, A (res.2.getD i 0) - res.1.getD i 0 • res.2.getD i 0 = c • r) ∧
+      (∀ i j, i < j → j < k → RCLike.re (res.1.getD i 0) ≤ RCLike.re (res.1.getD j 0)) ∧
+      (r = 0 → ∀ i, i < k → Module.End.HasEigenvector A (res.1.getD i 0) (res.2.getD i 0)) :=
+  eigs_out_unit eigh A n max_iters v tol A_hermitian start_nonzero tol_nonneg cap_pos
+    { size := eigh_contract_unit.1, pair := eigh_contract_unit.2.1,
+      orthonormal := eigh_contract_unit.2.2 }
+
+/-- the old statement is a corollary of the new one: under `eigh_contract_unit` the conclusion of
+`C14_lanczos_eigs` is the first part of the conclusion of `C14_lanczos_eigs_unit`, and `eigh_contract_unit`
+implies both `eigh_contract` and `eigh_contract_nonzero` (`EighUnit.toNonzero`) -/
+example (eigh : Array (Array 𝕜) → Array 𝕜 × Array (Array 𝕜))
+    (A : E →ₗ[𝕜] E) (A_hermitian : A.IsSymmetric) (n max_iters : ℕ) (v : E) (tol : ℝ)
+    (start_nonzero : v ≠ 0) (tol_nonneg : 0 ≤ tol) (cap_pos : 1 ≤ min max_iters n)
+    (eigh_contract_unit :
+      let o := lanczosExact A n #[v] max_iters tol
+      let e := eigh (tridiagDense (K := 𝕜) (o.alpha.getD 0 #[]) (o.beta.getD 0 #[]))
+      e.1.size = o.iters ∧
+      (∀ j a, j < o.iters → a < o.iters →
+        ∑ c ∈ range o.iters, o.T 0 a c * (e.2.getD j #[]).getD c 0 =
+          e.1.getD j 0 * (e.2.getD j #[]).getD a 0) ∧
+      ∀ i j, i < o.iters → j < o.iters →
+        ∑ c ∈ range o.iters, conj ((e.2.getD i #[]).getD c 0) * (e.2.getD j #[]).getD c 0 =
+          if i = j then 1 else 0) :
+    let o := lanczosExact A n #[v] max_iters tol
+    let res := lanczosEigs (K := 𝕜) eigh (⇑A) n 0 v max_iters (tol : 𝕜)
+    ∃ (idx : List ℕ) (θ : ℕ → 𝕜) (y : ℕ → ℕ → 𝕜) (x : ℕ → E),
+      idx.Perm (List.range o.iters) ∧
+      res.1.toList = idx.map θ ∧ res.2.toList = idx.map x ∧
+      (idx.map θ).Pairwise (fun a b => RCLike.re a ≤ RCLike.re b) ∧
+      ∀ j, j < o.iters →
+        x j = ∑ c ∈ range o.iters, y j c • o.q 0 c ∧
+        A (x j) - θ j • x j = y j (o.iters - 1) • o.resid A 0 := by
+  intro o res
+  obtain ⟨idx, θ, y, x, h1, h2, h3, h4, h5, _⟩ := C14_lanczos_eigs_unit eigh A A_hermitian n max_iters v
+    tol start_nonzero tol_nonneg cap_pos eigh_contract_unit
+  exact ⟨idx, θ, y, x, h1, h2, h3, h4, h5⟩
+
+/-- **the whole hypothesis bundle of `C14_lanczos_eigs_unit` is witnessed on a 3 × 3 run**: for the symmetric,
+non-diagonal `A = [[2,1,0],[1,2,1],[0,1,2]]`, `v = e₀` (grade 3), `n = 3`, `max_iters = 5`, `tol = 0` the model
+returns `k = 3` columns and `T = A`; the exact eigensolver `eigh3` (values `2 - √2, 2, 2 + √2`, orthonormal
+eigenvector columns `(1, -√2, 1)/2`, `(1, 0, -1)/√2`, `(1, √2, 1)/2`) satisfies `eigh_contract_unit` — hence
+also `eigh_contract_nonzero` and `eigh_contract` — and all other hypotheses hold as well. -/
+theorem C14_eigh_contract_unit_witness :
+    (Matrix.toEuclideanLin exM3).IsSymmetric ∧ exv3 ≠ 0 ∧ (0 : ℝ) ≤ 0 ∧ 1 ≤ min 5 3 ∧
+    (let o := lanczosExact (Matrix.toEuclideanLin exM3) 3 #[exv3] 5 0
+     let e := eigh3 (tridiagDense (K := ℝ) (o.alpha.getD 0 #[]) (o.beta.getD 0 #[]))
+     e.1.size = o.iters ∧
+     (∀ j a, j < o.iters → a < o.iters →
+       ∑ c ∈ range o.iters, o.T 0 a c * (e.2.getD j #[]).getD c 0 =
+         e.1.getD j 0 * (e.2.getD j #[]).getD a 0) ∧
+     ∀ i j, i < o.iters → j < o.iters →
+       ∑ c ∈ range o.iters, conj ((e.2.getD i #[]).getD c 0) * (e.2.getD j #[]).getD c 0 =
+         if i = j then 1 else 0) ∧
+    (let o := lanczosExact (Matrix.toEuclideanLin exM3) 3 #[exv3] 5 0
+     o.iters = 3 ∧ o.resid (Matrix.toEuclideanLin exM3) 0 = 0 ∧
+     ∀ a c, a < 3 → c < 3 → o.T 0 a c = if a = c then 2 else if a = c + 1 ∨ c = a + 1 then 1 else 0) := by
+  refine ⟨exM3_symm, exv3_ne, le_refl _, by decide,
+    ⟨ex3_eigh_unit.size, ex3_eigh_unit.pair, ex3_eigh_unit.orthonormal⟩, ?_⟩
+  obtain ⟨h1, _, _, _, _, h2, h3⟩ := ex3_run
+  exact ⟨h1, h3, h2⟩
+
 #print axioms C14_lanczos
 #print axioms C14_lanczos_eigs
 #print axioms C14_batch_partial
@@ -439,3 +600,6 @@ theorem C14_eigh_contract_witness :
 #print axioms C14_batch_inputs
 #print axioms C14_grade_witness
 #print axioms C14_eigh_contract_witness
+#print axioms C14_lanczos_eigs_nonzero
+#print axioms C14_lanczos_eigs_unit
+#print axioms C14_eigh_contract_unit_witness
